@@ -1,22 +1,27 @@
 (** C11 - events and Python objects convert into each other without loss.
-    PROVED (obj_to_events, common/object.py, modelled in Model/Object.v; every structure type whose classes have
-    distinct attribute names - all of the regenerated tables -, commands, responses; EVERY input strict decoding
-    accepts): the object the decoder returns, turned back into events, is exactly the decoded event list - same
-    length, paths, declared types and values, structure / list / placeholder events included; an absent optional part
-    stays absent (the empty payload of a size-prefixed structure becomes its one placeholder event, union members
+    PROVED, both directions (common/object.py modelled in Model/Object.v; every structure type whose classes have
+    distinct attribute names and none of which can be mistaken for the synthesized encrypted-parameter class - all of
+    the regenerated tables -, commands, responses; EVERY input strict decoding accepts):
+    (a) obj_to_events: the object the decoder returns, turned back into events, is exactly the decoded event list -
+    same length, paths, declared types and values, structure / list / placeholder events included; an absent optional
+    part stays absent (the empty payload of a size-prefixed structure becomes its one placeholder event, union members
     without payload, the session area / parameterSize of a message without sessions and everything after the response
     code of a failed response produce nothing).  Hence (with C02) re-encoding the object yields the input bytes.
     ([Proofs/ObjEv.v]: induction over the layout descriptors on completed strict runs, then field by field through
-    the two message decoders.)
-    NOT PROVED: events_to_obj (the path trie [_events_to_dict] and the class lookup of [_to_obj]) is not modelled:
-    "the object rebuilt from the events equals the decoder's object" is decided on the implementation by the oracle
-    (by-product == rebuilt with Python ==, both turn back into the decoded events incl. value classes, re-encoding gives
-    the input) on generated well-formed encodings of every type; the decoder's by-product object and the model's
-    obj_to_events of it are tied to the implementation by correspondence.
+    the two message decoders; the same induction establishes the shape [wsh]/[cmd_shape]/[rsp_shape] of the object.)
+    (b) events_to_obj: the decoded events, run through the path trie [_events_to_dict] ([ins]/[events_to_dict]) and the
+    class lookup [_to_obj] ([to_obj_ty]/[to_obj_msg], incl. the TPM2B empty-payload rule, the command-code maps for the
+    Any-typed areas and the recognition of the encrypted first parameter), rebuild exactly the object the decoder
+    returned.  ([Proofs/EvDict.v]: the events of an object are natural in the path they are asked for, and building
+    the trie from them gives the nested dict/list image [tree_of] of the object; [Proofs/EvObj.v]: converting that image
+    back gives the object; [Proofs/EvObj2.v]: encrypted areas, commands, responses, and the composition with (a).)
+    NOT PROVED: the stream root ([events_to_objs] over several messages) - decided on the implementation by the oracle;
+    Python-level equality of the value classes (the model compares class names and integer values).
+    Both conversions of the implementation are tied to the model by correspondence (objev / evobj).
     Statement file: theorem statements, [exact], Print Assumptions only. *)
 From Coq Require Import ZArith List String Bool.
 From TV Require Import Layout.Types gen.Tables Base.Bytes Model.Monad Model.Ints Model.Decoder Model.Message Model.Pump Model.Object
-  Proofs.OpLemmas Proofs.ObjEv.
+  Proofs.OpLemmas Proofs.ObjEv Proofs.EvObj Proofs.EvDict Proofs.EvObj2.
 Import ListNotations.
 Open Scope Z_scope.
 
@@ -32,20 +37,22 @@ Print Assumptions C11_returned_object_turns_back_into_the_decoded_events.
 Theorem C11_structure_types :
   forall T t, named_ty t = true -> forall sel pa s tr s' a, dec_ty T true t pa sel false s = (tr, s', Ok a) ->
     exists v, a = Some v /\ evs_of tr = oe_ty T t v pa.
-Proof. exact (fun T t H sel => proj1 (obj_all T) t H sel). Qed.
+Proof.
+  intros T t H sel pa s tr s' a E. destruct (proj1 (obj_all T) t H sel pa s tr s' a E) as (v & Hv & _ & He). exists v. split; assumption.
+Qed.
 Print Assumptions C11_structure_types.
 
 (** ... commands and responses *)
 Theorem C11_commands :
   forall T, msg_named T = true -> forall pa s tr s' res, dec_command T true pa s = (tr, s', Ok res) ->
     evs_of tr = oe_command T (cr_obj res) pa.
-Proof. exact command_obj. Qed.
+Proof. exact (fun T H pa s tr s' res E => proj1 (command_obj T H pa s tr s' res E)). Qed.
 Print Assumptions C11_commands.
 
 Theorem C11_responses :
   forall T, msg_named T = true -> forall pa cc enc s tr s' v, dec_response T true pa cc enc s = (tr, s', Ok v) ->
     evs_of tr = oe_response T cc v pa.
-Proof. exact response_obj. Qed.
+Proof. exact (fun T H pa cc enc s tr s' v E => proj1 (response_obj T H pa cc enc s tr s' v E)). Qed.
 Print Assumptions C11_responses.
 
 (** the premises hold of the regenerated tables: attribute names are distinct within every class *)
@@ -53,6 +60,49 @@ Theorem C11_tables_named :
   msg_named Tables.T && forallb (fun nt => named_ty (snd nt)) (types Tables.T) = true.
 Proof. vm_compute. reflexivity. Qed.
 Print Assumptions C11_tables_named.
+
+(** (b) every root but the stream, every accepted input: events_to_obj (the decoded events) = the returned object *)
+Theorem C11_decoded_events_rebuild_the_returned_object :
+  forall T r bs evs, msg_named T = true -> msg_plain T = true -> root_named T r -> root_plain T r -> is_stream_root r = false ->
+    decode T true r bs = (evs, OAccepted) ->
+    exists v es, decode_obj T true r bs = Some v /\ map fst evs = map Ev es /\ es = obj_to_events T r v /\ events_to_obj T r es = Some v.
+Proof. exact decoded_events_rebuild_object. Qed.
+Print Assumptions C11_decoded_events_rebuild_the_returned_object.
+
+(** the two conversions are inverse on the objects the decoder produces: any structure type ... *)
+Theorem C11_structure_round_trip :
+  forall T t v, named_ty t = true -> plain_ok T t = true -> wsh t v ->
+    events_to_obj T (RType t) (obj_to_events T (RType t) v) = Some v.
+Proof. exact type_back. Qed.
+Print Assumptions C11_structure_round_trip.
+
+(** ... commands and responses (with or without sessions, failed responses, encrypted first parameters) *)
+Theorem C11_command_round_trip :
+  forall T, msg_named T = true -> msg_plain T = true -> forall v, cmd_shape T v ->
+    events_to_obj T RCommand (obj_to_events T RCommand v) = Some v.
+Proof. exact command_back. Qed.
+Print Assumptions C11_command_round_trip.
+
+Theorem C11_response_round_trip :
+  forall T, msg_named T = true -> msg_plain T = true -> forall cc enc v, rsp_shape T cc v ->
+    events_to_obj T (RResponse cc enc) (obj_to_events T (RResponse cc enc) v) = Some v.
+Proof. exact response_back. Qed.
+Print Assumptions C11_response_round_trip.
+
+(** the trie built from the events of an object is the nested dict/list image of the object *)
+Theorem C11_events_build_the_image_of_the_object :
+  forall T t v, named_ty t = true -> wsh t v ->
+    events_to_dict (oe_ty T t v root_path) (TDict []) = Some (TDict [(EmptyString, tree_of v)]).
+Proof.
+  intros T t v Hn Hw. rewrite events_to_dict_build. exact (placed_blk (oe_ty T t v) (tree_of v) EmptyString [] (proj1 (dict_all T) t Hn v Hw) eq_refl).
+Qed.
+Print Assumptions C11_events_build_the_image_of_the_object.
+
+(** the premises hold of the regenerated tables: no class can be mistaken for the encrypted-parameter class *)
+Theorem C11_tables_plain :
+  msg_plain Tables.T && forallb (fun nt => plain_ok Tables.T (snd nt)) (types Tables.T) = true.
+Proof. vm_compute. reflexivity. Qed.
+Print Assumptions C11_tables_plain.
 
 (** field level: the value stored in the object of a primitive field is the value of the event emitted for it *)
 Theorem C11_field_object_matches_event_partial :
@@ -71,12 +121,14 @@ Example C11_example :
   (let bs := [128;1;0;0;0;12;0;0;1;123;0;32] in
    snd (decode Tables.T true RCommand bs) = OAccepted /\
    match decode_obj Tables.T true RCommand bs with
-   | Some v => map Ev (obj_to_events Tables.T RCommand v) = map fst (fst (decode Tables.T true RCommand bs)) /\ List.length (obj_to_events Tables.T RCommand v) = 7%nat
+   | Some v => map Ev (obj_to_events Tables.T RCommand v) = map fst (fst (decode Tables.T true RCommand bs)) /\ List.length (obj_to_events Tables.T RCommand v) = 7%nat /\
+               events_to_obj Tables.T RCommand (obj_to_events Tables.T RCommand v) = Some v
    | None => False
    end) /\
   match lookupS "TPM2B_PUBLIC" (types Tables.T) with
   | Some t => match decode_obj Tables.T true (RType t) [0;0] with
-              | Some v => List.length (obj_to_events Tables.T (RType t) v) = 3%nat
+              | Some v => List.length (obj_to_events Tables.T (RType t) v) = 3%nat /\
+                          events_to_obj Tables.T (RType t) (obj_to_events Tables.T (RType t) v) = Some v
               | None => False
               end
   | None => False
